@@ -40,12 +40,15 @@ def signature(lines):
     return "not_linearizable" + ("[" + ",".join(sorted(odd)) + "]" if odd else "")
 
 
-def run(prop, tier, seed, plan, replay_dir=None):
+def run(prop, tier, seed, plan, replay_dir=None, merge=False):
+    """merge=True: the property's main evidence file exists already (written by the scenario engine); add to it"""
     t0 = time.time()
     tmp = engines.scratch()
     try:
         stress = engines.build("inostress", race=True)
         nprog = int((200 if tier == "quick" else 6000) * float(os.environ.get("VERIF_SCALE", "1")))
+        if merge:
+            nprog = nprog // 2
         seeds = [seed] if tier == "quick" else [seed, seed + 1, seed + 2]
         if replay_dir:
             meta = json.load(open(os.path.join(replay_dir, "violation.json")))
@@ -128,7 +131,7 @@ def run(prop, tier, seed, plan, replay_dir=None):
             seen.add(cause)
             if nrep >= 6:
                 break
-            rd = os.path.join(HERE, "replays", "%s-%s-%d-%d" % (prop, tier, seed, nrep))
+            rd = os.path.join(HERE, "replays", "%s-%s-%d-c%d" % (prop, tier, seed, nrep))
             shutil.rmtree(rd, ignore_errors=True)
             os.makedirs(rd)
             open(os.path.join(rd, "history.ndjson"), "w").writelines(history_of(hist, idx))
@@ -139,7 +142,19 @@ def run(prop, tier, seed, plan, replay_dir=None):
             rc = 1
         for c, (k, where) in known_hit.items():
             log("KNOWN-FINDING: property=%s cause=%s %s (e.g. %s)" % (prop, c, k["text"], where))
-        if replay_dir is None:
+        if replay_dir is None and merge:
+            evf = os.path.join(HERE, "evidence", prop + ".json")
+            if os.path.exists(evf):
+                ev = json.load(open(evf))
+                ev["coverage"]["concurrent_programs"] = dict(programs=total, linearized=explained, tlc_states=states, modes=modes,
+                                                              rule="inostress -race histories checked by LinTrace.tla; hangs, panics and race reports are attributed to this property")
+                ev["coverage"]["states"] = ev["coverage"].get("states", 0) + states
+                ev["coverage"]["transitions"] = ev["coverage"].get("transitions", 0) + gen
+                ev["coverage"]["traces_validated_against_impl"] = ev["coverage"].get("traces_validated_against_impl", 0) + explained
+                ev["violations"] = ev.get("violations", 0) + len(viols)
+                ev["wall_s"] = round(ev.get("wall_s", 0) + time.time() - t0, 1)
+                json.dump(ev, open(evf, "w"), indent=1)
+        elif replay_dir is None:
             ev = dict(property_id=prop, tier=tier, seed=seed, level="model_checking",
                       coverage=dict(states=max(states, 1), transitions=max(gen, 1), traces_validated_against_impl=explained,
                                     evaluations=total, distinct_nontrivial=total,
